@@ -33,8 +33,8 @@ ColLimit(cells, n, i, run) ==       \* run = number of cells of the current colu
            r    == IF same THEN run + 1 ELSE 1
        IN (IF r <= n THEN <<cells[i]>> ELSE <<>>) \o ColLimit(cells, n, i + 1, r)
 
-\* interleave: concatenate branch outputs, regroup per column (families and columns in order of first
-\* appearance; columns of a family by qualifier), cells by descending timestamp keeping duplicates
+\* interleave: concatenate branch outputs, regroup per column (families in the order of the input row,
+\* columns of a family by qualifier), cells by descending timestamp keeping duplicates
 ColsOf(cells) == {<<cells[i].f, cells[i].q>> : i \in 1..Len(cells)}
 FirstIdx(cells, P(_)) == CHOOSE i \in 1..Len(cells) : P(cells[i]) /\ \A j \in 1..(i-1) : ~P(cells[j])
 
@@ -52,12 +52,19 @@ InsertDesc(sorted, c) ==
   ELSE <<Head(sorted)>> \o InsertDesc(Tail(sorted), c)
 SortDescStable(cs) == IF cs = <<>> THEN <<>> ELSE InsertDesc(SortDescStable(SubSeq(cs, 1, Len(cs) - 1)), cs[Len(cs)])
 
-Regroup(all) ==
-  LET fo == FamOrder(all, {}) IN
+\* families keep the order they have in the filter's input row `cells`
+Regroup(all, cells) ==
+  LET fo == SelectSeq(FamOrder(cells, {}), LAMBDA f : \E i \in 1..Len(all) : all[i].f = f) IN
   ConcatAll([j \in 1..Len(fo) |->
      LET qs == SortBytes({c[2] : c \in {d \in ColsOf(all) : d[1] = fo[j]}}) IN
      ConcatAll([m \in 1..Len(qs) |->
         SortDescStable(SelectSeq(all, LAMBDA c : c.f = fo[j] /\ c.q = qs[m]))])])
+
+\* a cell list regrouped by ascending family name (stable inside a family): family order is not part of
+\* what a read promises, everything else is
+FamSorted(cs) ==
+  LET fs == SortBytes({cs[i].f : i \in 1..Len(cs)}) IN
+  ConcatAll([j \in 1..Len(fs) |-> SelectSeq(cs, LAMBDA c : c.f = fs[j])])
 
 \* same multiset of cells per column and same column order, ignoring the order among equal timestamps
 SameUpToTies(a, b) ==
@@ -114,7 +121,7 @@ ChainEval(fs, n, cells, key) ==
                : o \in Eval(fs[n], cells, key) }
 
 InterEval(fs, n, cells, key, acc) ==
-  IF n > Len(fs) THEN {R(FALSE, Regroup(acc))}
+  IF n > Len(fs) THEN {R(FALSE, Regroup(acc, cells))}
   ELSE UNION { IF o.err THEN {R(TRUE, <<>>)} ELSE InterEval(fs, n + 1, cells, key, acc \o o.cells)
                : o \in Eval(fs[n], cells, key) }
 
